@@ -85,6 +85,12 @@ var ssoACSLists = map[string][]msg.ACS{
 	"post+simplesign": {{msg.BindPost, "https://sp-a.example/acs/post", "0", ""}, {msg.BindSimpleSign, "https://sp-a.example/acs/simplesign", "1", ""}},
 	"artifact-default+post": {{msg.BindArtifact, "https://sp-a.example/acs/artifact", "0", "true"}, {msg.BindPost, "https://sp-a.example/acs/post", "1", ""}},
 	"post+artifact-lowest":  {{msg.BindPost, "https://sp-a.example/acs/post", "5", ""}, {msg.BindArtifact, "https://sp-a.example/acs/artifact", "1", ""}},
+	// xs:anyURI collapses white space: a padded binding URI is a legal spelling; case-changed URIs are simply other URIs
+	"post-padded":           {{" " + msg.BindPost + " ", "https://sp-a.example/acs/post", "0", ""}},
+	"redirect-padded-nl":    {{"\n\t" + msg.BindRedirect + "\n", "https://sp-a.example/acs/redirect", "0", ""}},
+	"post-upper-case":       {{strings.ToUpper(msg.BindPost), "https://sp-a.example/acs/post", "0", ""}},
+	"post-padded+redirect":  {{msg.BindPost + " ", "https://sp-a.example/acs/post", "0", "true"}, {msg.BindRedirect, "https://sp-a.example/acs/redirect", "1", ""}},
+	"location-padded":       {{msg.BindPost, " https://sp-a.example/acs/post ", "0", ""}},
 	"none":          {},
 	"empty-binding": {{"", "https://sp-a.example/acs/nobinding", "0", ""}},
 	"empty-location": {{msg.BindPost, "", "0", ""}},
@@ -230,6 +236,8 @@ func ssoBuild(p ssoP) (*world.World, *http.Request, *ssoTruth) {
 		w.Store.FaultAt("CreateAuthRequest", 1, world.FaultCtxDeadline)
 	case "error-ctx-canceled":
 		w.Store.FaultAt("CreateAuthRequest", 1, world.FaultCtxCanceled)
+	case "error-with-record":
+		w.Store.FaultAt("CreateAuthRequest", 1, world.FaultErrWithValue)
 	case "":
 	default:
 		panic("ssoBuild: Persist " + p.Persist)
@@ -245,6 +253,8 @@ func ssoBuild(p ssoP) (*world.World, *http.Request, *ssoTruth) {
 		w.Store.FaultAt("GetEntityByID", 1, world.FaultCtxDeadline)
 	case "error-ctx-canceled":
 		w.Store.FaultAt("GetEntityByID", 1, world.FaultCtxCanceled)
+	case "error-with-record":
+		w.Store.FaultAt("GetEntityByID", 1, world.FaultErrWithValue)
 	}
 	t.Required = boolTrue(p.SPFlag) || boolTrue(p.IdPFlag)
 
